@@ -110,6 +110,10 @@ func lightRoundTrip(it ast.ItemNode, want []byte) string {
 		msg := ast.NewHSMSDataMessage("", 1, 1, 0, "H<->E", it, 0x0102, []byte{9, 8, 7, 6})
 		b := msg.ToBytes()
 		ib := it.ToBytes()
+		if len(it.Variables()) == 0 && len(ib) == 0 {
+			res = "an item without variables encodes to no bytes"
+			return
+		}
 		if want != nil && !bytes.Equal(ib, want) {
 			res = fmt.Sprintf("item encodes to %d bytes starting % x, expected %d bytes starting % x", len(ib), ib[:imin(8, len(ib))], len(want), want[:8])
 			return
@@ -198,7 +202,13 @@ func nearLimitRoundTrip(c *Ctx) []Case {
 		s := string(bytes.Repeat([]byte{'y'}, 9000000))
 		return ast.NewListNode(ast.NewASCIINode(s), ast.NewASCIINode(s)), nil
 	}}
-	cases := []mk{ascii(max), ascii(max - 3), ascii(max - 4), ints("I", 2, max/2), binary(max - 2), list2}
+	// a list is limited in elements, not in bytes: two items that together pass 16,777,215 bytes,
+	// one level down
+	list3 := mk{"L[2]{U1[1] L[2]{A[8388603] A[8388603]}}", func() (ast.ItemNode, []byte) {
+		s := string(bytes.Repeat([]byte{'z'}, 8388603))
+		return ast.NewListNode(ast.NewUintNode(1, 7), ast.NewListNode(ast.NewASCIINode(s), ast.NewASCIINode(s))), nil
+	}}
+	cases := []mk{ascii(max), ascii(max - 3), ascii(max - 4), ints("I", 2, max/2), binary(max - 2), list2, list3}
 	if c.Tier == "thorough" {
 		cases = append(cases, ascii(max-1), ascii(max-2), ascii(max-10), ascii(max-14), ints("U", 1, max-1), ints("U", 4, max/4), ints("I", 8, max/8), ints("U", 2, max/2-1), binary(max))
 	}
